@@ -16,6 +16,8 @@ You are in a scratch git worktree of the Go library volatiletech/authboss (modul
 
     export GOFLAGS=-mod=mod GOPROXY=off GOSUMDB=off GOTOOLCHAIN=local; unset GOWORK
 
+Do not use `git stash` (the stash is shared with other worktrees of the same repository); undo changes with `git apply -R <patch>` or `git checkout -- .`.
+
 The library is supposed to have this property:
 
 > **{p.get('title','')}** — {text}
